@@ -470,7 +470,14 @@ func crashsim(args []string) error {
 				for i := 1; i <= cl.n; i++ {
 					all = append(all, i)
 				}
-				s.w.setTargets(all) // the hook may fire at once (snapshot right after the election): no barrier here
+				// wait until the node takes writes again (replay finished, leader elected) before the
+				// clients go on - unless the armed hook fires first (a snapshot right after the election)
+				for t := 0; t < 40 && !k.exited(); t++ {
+					if cl.waitWritable(1500*time.Millisecond, all) != 0 {
+						break
+					}
+				}
+				s.w.setTargets(all)
 			} else if p != "kill" {
 				k.send(fmt.Sprintf("crash %s 1", p))
 				if ln := k.waitLine(5*time.Second, "ARMED "); !strings.HasPrefix(ln, "ARMED ") {
